@@ -346,6 +346,9 @@ func bypassJoins(iff *ssa.If, target *ssa.BasicBlock) bool {
 
 // sameSliceShape: both are X[:n] of the same base load and the same bound value.
 func sameSliceShape(a, b ssa.Value) bool {
+	if a == b || sameValue(a, b) {
+		return true // one value (a staging window handed out by a helper) is both filled and hashed
+	}
 	sa, ok1 := a.(*ssa.Slice)
 	sb, ok2 := b.(*ssa.Slice)
 	if !ok1 || !ok2 {
